@@ -1227,6 +1227,12 @@ CORNER_DECKS = [
 ]
 
 
+OPTION_SETS = [('--always-inline-filling',), ('--skip-deduplication',),
+               ('--skip-geomcomp',), ('--skip-boundary-conditions',),
+               ('--always-inline-filling', '--skip-deduplication'),
+               ('--skip-geomcomp', '--skip-boundary-conditions')]
+
+
 def conv_error_class(conv):
     if conv.exc == 'ValueError' and 'same sign' in conv.msg:
         return 'EMixedSigns'
@@ -1247,6 +1253,7 @@ def run_decks(res, rng, n_decks):
     text_cases, text_meta = [], []
     partial_cases, partial_meta = [], []
     n_known = {}
+    extra = ()
     for text in CORNER_DECKS:
         conv, cap = convert_capture(text)
         res.seen(text)
@@ -1278,8 +1285,11 @@ def run_decks(res, rng, n_decks):
             victim = rng.choice(deck['mats'])
             victim['items'], broken = gen_card(rng, valid=False)
         text = render_deck(deck, rng)
-        conv, cap = convert_capture(text)
-        res.seen(text)
+        # a third of the decks under an option set: none may change the block
+        extra = rng.choice(OPTION_SETS) if rng.random() < 0.34 else ()
+        conv, cap = convert_capture(text, extra)
+        res.seen((text, extra))
+        res.count('options:' + (' '.join(extra) or 'default'))
         res.count('deck:' + ('broken:' + broken if broken else 'valid'))
         for role in deck['roles'].values():
             res.count('role:' + role)
@@ -1289,7 +1299,7 @@ def run_decks(res, rng, n_decks):
                 res.violation('impl-violation',
                               f'valid deck rejected: {conv.exc}: '
                               f'{conv.msg[:200]}',
-                              {'input': {'deck': text}}, found_input=True)
+                              {'input': {'deck': text, 'args': list(extra)}}, found_input=True)
                 continue
             for why, cls in oracle_deck(deck, text, section, conv.text):
                 if cls is not None:
@@ -1297,18 +1307,18 @@ def run_decks(res, rng, n_decks):
                     if n_known[cls] > 3:
                         continue
                 res.violation('impl-violation', why,
-                              {'input': {'deck': text},
+                              {'input': {'deck': text, 'args': list(extra)},
                                'theorem_or_correspondence': 'sweep:decks'},
                               cls=cls, found_input=True)
         elif broken == 'mixed' and conv.ok:
             res.violation('impl-violation',
                           'deck with a mixed-sign material card converted',
-                          {'input': {'deck': text}}, found_input=True)
+                          {'input': {'deck': text, 'args': list(extra)}}, found_input=True)
         if 'cells' not in cap:
             if conv.ok:
                 res.violation('correspondence',
                               'writeT4Composition was not called',
-                              {'input': {'deck': text},
+                              {'input': {'deck': text, 'args': list(extra)},
                                'theorem_or_correspondence': 'tie:text'},
                               found_input=False)
             continue
@@ -1372,7 +1382,7 @@ def replay(path):
     data = json.load(open(path))
     inp = data.get('input', {})
     if 'deck' in inp:
-        conv, cap = convert_capture(inp['deck'])
+        conv, cap = convert_capture(inp['deck'], tuple(inp.get('args', ())))
         print('conversion:', conv)
         print('warnings:', [w for w in conv.warnings if 'unclosed' not in w])
         section = composition_section(conv.text or '')
